@@ -344,8 +344,10 @@ def run_plan(inst, pre, plan, recorder=None, digest=None):
             if name.startswith('@tree:'):
                 name = W.build_check(w['trees'][int(name[6:])])
             creds = {'roles': list(roles)}
-            if system:
+            if system is True:
                 creds['system'] = 'all'
+            elif system == 'domain':
+                creds['domain_id'] = 'd-1'
             try:
                 return bool(E.enforce(name, {}, creds,
                                       do_raise=bool(c.get('do_raise'))))
